@@ -54,7 +54,7 @@ m={
    "kind_free_text":"forking symbolic executor for go/ssa (re-execution DFS over decision prefixes), bit-vector terms with hash-consing and bit-slice rewrites, SMT-LIB2 over pipes to cvc5 (z3 cross-check), per-path native translation validation and counterexample replay"}],
  "checks": checks,
  "not_applicable": [],
- "notes": "Exit codes: 0 held on everything explored (KNOWN-FINDING lines possible), 1 replayed violation (VIOLATION property=<id> replay=<path>), 2 inconclusive (cannot build, solver unknown/disagreement, vacuity marker missing, encoding mismatch). Known findings: /verif/known_findings.txt."
+ "notes": "Exit codes: 0 held on everything explored (KNOWN-FINDING lines possible), 1 replayed violation (VIOLATION property=<id> replay=<path>), 2 inconclusive (cannot build, solver unknown/disagreement, vacuity marker missing, encoding mismatch, wall-clock limit of the tier: 15 min quick / 150 min thorough). NOTE lines do not change the exit code: they report decisions narrowed to one alternative (a reduced bound, also in the evidence) or a lockset report the race detector did not reproduce. Known findings: /verif/known_findings.txt. Seeded property-breaking changes: /verif/seeded; property-preserving changes used for false-alarm testing: /verif/benign."
 }
 json.dump(m, open('/verif/MANIFEST.json','w'), indent=1)
 print("ok")
